@@ -173,7 +173,7 @@ func checkOne(c *mc.Ctx, box orb.Bound, in orb.LineString, open bool) {
 		}
 	}
 	// the same problem scaled by a power of two (exact in float64) must clip to the bit-for-bit scaled pieces
-	for _, k := range []float64{1024, 1.0 / 64} {
+	for _, k := range []float64{1024, 1.0 / (1 << 40)} {
 		sl, _ := refgeom.Scale(in, k).(orb.LineString)
 		var gs orb.MultiLineString
 		if open {
